@@ -241,6 +241,45 @@ def r07_5(run):
                path=cfg.path_text(w) if w else None)
 
 
+def r07_6_order(run):
+    """who the base is, is settled before it is acted on: in every Tensor method, a store that detaches `self` from its base (`self._base = None`)
+    is never preceded, on any path, by a call made *on* that base (`self.base.null_grad()`, handing `self.base` to a constructor).  Otherwise a
+    tensor that is no longer a view of that base (its base forgot it) still drops the former base's gradient / drags it into the placeholder graph."""
+    import networkx as nx
+    n = 0
+    T = run.project.cls(TENSOR)
+    for m in T.methods.values():
+        detach = [s_ for s_ in own_nodes(m.node) if isinstance(s_, ast.Assign) and any(norm(t_) == "self._base" for t_ in s_.targets)
+                  and isinstance(s_.value, ast.Constant) and s_.value.value is None]
+        if not detach:
+            continue
+        cfg = build_cfg(run, m, switch_assumptions(m, track=True))
+        acts = []
+        for c in own_nodes(m.node):
+            if not isinstance(c, ast.Call):
+                continue
+            on_base = isinstance(c.func, ast.Attribute) and norm(c.func.value) in ("self.base", "self._base")
+            passes = any(norm(a_) in ("self.base", "self._base") for a_ in list(c.args) + [k.value for k in c.keywords]) or any(
+                isinstance(a_, ast.IfExp) and norm(a_.orelse) in ("self.base", "self._base") or isinstance(a_, ast.IfExp) and norm(a_.body) in ("self.base", "self._base")
+                for a_ in c.args)
+            if on_base or passes:
+                nd = cfg.stmt_node_containing(c)
+                if nd is not None and cfg.reachable(nd):
+                    acts.append((nd, c))
+        for s_ in detach:
+            ns = cfg.node_for(s_)
+            if ns is None or not cfg.reachable(ns):
+                continue
+            n += 1
+            anc = nx.ancestors(cfg.g, ns)
+            early = [c for nd, c in acts if nd in anc]
+            run.ob("R07.6", loc(m, s_), m.short, "a stale base is detached before anything is done to `self.base`", not early,
+                   f"{len(acts)} call(s) on / with self.base, none of them precedes the detaching store" if not early else
+                   f"`{norm(early[0])[:50]}` runs before `self._base = None`: the gradient of a tensor that no longer tracks this view is discarded "
+                   f"(or it is pulled into the placeholder graph) although the update cannot reach it")
+    run.count("stale-base detach sites checked for ordering", n)
+
+
 def r07_6(run):
     # (a) _op: non-view results null the grads of every tensor input before the op is recorded as their consumer
     fi = anchor_func(run, OP)
@@ -506,4 +545,5 @@ def check(run):
     run.do(r07_4)
     run.do(r07_5)
     run.do(r07_6)
+    run.do(r07_6_order)
     run.do(r07_7)
